@@ -51,9 +51,10 @@ class Partial:
         self.extra = {}                     # check specific, merged by the check's `merge_extra`
         self.errors = []                    # harness errors -> inconclusive
         self.lines = set()                  # (file, line) of library lines executed (coverage tap)
+        self.max_viol = MAX_VIOL_PER_TASK
 
     def violate(self, key, what, case):
-        if len(self.violations) < MAX_VIOL_PER_TASK:
+        if len(self.violations) < self.max_viol:
             self.violations.append({"key": key, "what": what, "case": case})
         else:
             self.dropped_violations += 1
@@ -325,6 +326,9 @@ def run_check(pid, tier, seed):
     dedup = {}
     for v in fresh:
         dedup.setdefault(v["key"], v)
+    if os.environ.get("HV_DUMP_VIOLATIONS"):
+        with open(os.environ["HV_DUMP_VIOLATIONS"], "w") as f:
+            json.dump([{"key": k, "what": v["what"]} for k, v in dedup.items()], f, indent=1)
     for key, v in list(dedup.items())[:20]:
         path = write_replay(pid, tier, seed, v)
         replay_paths.append(path)
